@@ -89,7 +89,14 @@ def check(case: Dict[str, Any]) -> CaseInfo:
             os.makedirs(sub)
             files = write_case(case[label], sub)
             sides[label] = (sub, files)
-        mk = lambda label: Trace(dict(sides[label][1]), sides[label][0])  # noqa: E731
+        def mk(label):
+            t = Trace(dict(sides[label][1]), sides[label][0])
+            if p.get("preloaded", {}).get(label):
+                # the Trace object went through a full load before (e.g. TraceAnalysis(...).t): the diff must still see every
+                # event of the files, not the frames that load trimmed
+                hta_call("load_traces(before the diff)", lambda: t.load_traces(use_multiprocessing=False))
+            return t
+
         equal = p.get("equal_labels", False)
         c_obj = hta_call("LabeledTrace(control)", lambda: LabeledTrace("Control", t=mk("control")))
         t_obj = hta_call("LabeledTrace(test)", lambda: LabeledTrace("Control" if equal else "Test", t=mk("test")))
@@ -187,6 +194,8 @@ def check(case: Dict[str, Any]) -> CaseInfo:
         if any(vocab.short_name(n) != n for n in lc):
             classes.append("short_name_merges")
     classes.append("device:" + p["device"])
+    if any(p.get("preloaded", {}).values()):
+        classes.append("trace_object_loaded_before_the_diff")
     for side in ("control", "test"):
         cats: Dict[str, set] = {}
         for rd in case[side]["ranks"]:
@@ -239,6 +248,7 @@ def c17_case(draw):
         "device": draw(st.sampled_from(["ALL", "CPU", "GPU"])), "short": draw(st.sampled_from([True, False])),
         "self_mode": draw(st.sampled_from(["same_object", "same_dir", "two_objects", "same_label"])),
         "equal_labels": draw(st.sampled_from([True, False, False])), "ops_first": draw(st.sampled_from([True, False])),
+        "preloaded": {"control": draw(st.sampled_from([True, False, False])), "test": draw(st.sampled_from([True, False, False, False]))},
     }
     return {"control": control, "test": test, "params": params}
 
@@ -254,5 +264,5 @@ def campaigns(tier: str) -> List[Campaign]:
                      required_classes={"class:added": 0.3, "class:deleted": 0.3, "class:increased": 0.12, "class:decreased": 0.12,
                                        "class:unchanged": 0.3, "multi_rank_selection": 0.1, "short_names": 0.2,
                                        "short_name_merges": 0.1, "proper_rank_subset": 0.08,
-                                       "same_label_ops_diff_first": 0.08, "one_name_under_two_categories": 0.2},
+                                       "same_label_ops_diff_first": 0.08, "one_name_under_two_categories": 0.2, "trace_object_loaded_before_the_diff": 0.2},
                      sample_view=view)]
